@@ -1,6 +1,8 @@
 package verifh
 
 import (
+	"database/sql/driver"
+
 	"gorm.io/gorm"
 	"gorm.io/gorm/clause"
 	"gorm.io/gorm/internal/verifrt"
@@ -339,4 +341,92 @@ func H_C08_Cascade(shape int) {
 		}
 	}
 	verifrt.Assert(kids == 1 && parents == 1, "C08.cascade-statements")
+}
+
+// ---- association lookups and preloads of a soft-deletable target: every query on
+// the target's table keeps deleted rows out
+
+var c08Lookups = []string{"association-find-belongs-to", "association-count-belongs-to", "association-find-has-many", "association-count-has-many", "preload-belongs-to", "preload-has-many", "association-find-has-many-conds"}
+
+func N_C08_Lookups(tier int) int { return len(c08Lookups) }
+
+func H_C08_Lookups(shape int) {
+	kind := c08Lookups[shape]
+	verifrt.Tag(kind)
+	s := NewStore()
+	id := int64(verifrt.Intn("id", 1, 1000))
+	s.OnQuery = func(text string, args []driver.Value) RowSet {
+		switch {
+		case hasPrefix(text, "SELECT count(*)"):
+			return RowSet{Cols: []string{"count(*)"}, Rows: [][]driver.Value{{int64(1)}}}
+		case hasPrefix(text, "SELECT * FROM `holders`"):
+			return RowSet{Cols: []string{"id", "name", "docid"}, Rows: [][]driver.Value{{int64(1), "h", id}}}
+		case hasPrefix(text, "SELECT * FROM `binders`"):
+			return RowSet{Cols: []string{"id", "name"}, Rows: [][]driver.Value{{id, "b"}}}
+		}
+		return RowSet{}
+	}
+	db := openReal(stubDialector{}, s, nil)
+	table := "`docs`"
+	var err error
+	switch kind {
+	case "association-find-belongs-to":
+		var d Doc
+		err = db.Model(&Holder{ID: 1, DocID: uint(id)}).Association("Doc").Find(&d)
+	case "association-count-belongs-to":
+		a := db.Model(&Holder{ID: 1, DocID: uint(id)}).Association("Doc")
+		a.Count()
+		err = a.Error
+	case "association-find-has-many":
+		table = "`sheets`"
+		var sh []Sheet
+		err = db.Model(&Binder{ID: uint(id)}).Association("Sheets").Find(&sh)
+	case "association-find-has-many-conds":
+		table = "`sheets`"
+		var sh []Sheet
+		err = db.Model(&Binder{ID: uint(id)}).Where("id > ? OR id < ?", 5, 3).Association("Sheets").Find(&sh, "id <> ? OR id = ?", 7, 8)
+	case "association-count-has-many":
+		table = "`sheets`"
+		a := db.Model(&Binder{ID: uint(id)}).Association("Sheets")
+		a.Count()
+		err = a.Error
+	case "preload-belongs-to":
+		var hs []Holder
+		err = db.Preload("Doc").Find(&hs).Error
+	case "preload-has-many":
+		table = "`sheets`"
+		var bs []Binder
+		err = db.Preload("Sheets", "id <> ? OR id = ?", 7, 8).Find(&bs).Error
+	}
+	verifrt.Reach("ran")
+	verifrt.Observe("log", s.Kinds())
+	verifrt.Assert(err == nil, "C08.error")
+	n := 0
+	for _, e := range s.Log {
+		if e.Kind != "QUERY" || indexStr(e.Text, " FROM "+table) < 0 {
+			continue
+		}
+		n++
+		w, ok := whereText(e.Text)
+		verifrt.Assert(ok, "C08.deleted-row-visible")
+		// the guard is a conjunct of its own: "... AND `t`.`deletedat` IS NULL", user conditions with OR in parentheses
+		g := indexStr(w, table+".`deletedat` IS NULL")
+		verifrt.Assert(g >= 0, "C08.deleted-row-visible")
+		if g >= 0 {
+			depth, top := 0, true
+			for i := 0; i < len(w); i++ {
+				switch w[i] {
+				case '(':
+					depth++
+				case ')':
+					depth--
+				}
+				if depth == 0 && i+4 <= len(w) && w[i:i+4] == " OR " {
+					top = false
+				}
+			}
+			verifrt.Assert(top, "C08.deleted-row-visible")
+		}
+	}
+	verifrt.Assert(n >= 1, "C08.no-lookup-query")
 }
